@@ -12,6 +12,9 @@ func init() { runners["C01"] = runC01 }
 
 type twCfg struct{ size, ooo, late int64 }
 
+// nestLate: late rows of generated histories run one watermark delivery inside their late-update callback
+var nestLate = false
+
 // genTimeOps generates one history for an event-time window whose windows have the given period.
 func genTimeOps(rng *RNG, period, ooo int64, n int, keys []string, farFuture bool) []wop {
 	var ops []wop
@@ -22,6 +25,7 @@ func genTimeOps(rng *RNG, period, ooo int64, n int, keys []string, farFuture boo
 	mkAdd := func() wop {
 		id++
 		var ts int64
+		late := false
 		switch rng.Intn(12) {
 		case 0: // exactly on a boundary
 			ts = (t/period + int64(rng.Intn(3))) * period
@@ -33,6 +37,7 @@ func genTimeOps(rng *RNG, period, ooo int64, n int, keys []string, farFuture boo
 			ts = maxTs - int64(rng.Intn(int(ooo)+1))
 		case 4: // late beyond tolerance
 			ts = maxTs - ooo - 1 - int64(rng.Intn(int(2*period)+1))
+			late = true
 		case 5: // jump ahead several windows
 			t += period * int64(rng.Intn(4)+1)
 			ts = t
@@ -53,7 +58,7 @@ func genTimeOps(rng *RNG, period, ooo int64, n int, keys []string, farFuture boo
 		} else if ts > maxTs {
 			maxTs = ts
 		}
-		o := wop{kind: 'A', id: id, ts: ts}
+		o := wop{kind: 'A', id: id, ts: ts, lateCase: late}
 		if len(keys) > 0 {
 			o.key = keys[rng.Intn(len(keys))]
 		}
@@ -65,7 +70,11 @@ func genTimeOps(rng *RNG, period, ooo int64, n int, keys []string, farFuture boo
 	for len(ops) < n {
 		switch r := rng.Intn(20); {
 		case r < 13:
-			ops = append(ops, mkAdd())
+			a := mkAdd()
+			if nestLate && a.kind == 'A' && a.lateCase && len(keys) == 0 && rng.Intn(2) == 0 {
+				a.nest = true
+			}
+			ops = append(ops, a)
 		case r < 18:
 			d := wop{kind: 'D', inj: [][]wop{}}
 			if rng.Intn(3) == 0 {
@@ -122,6 +131,10 @@ func runC01(tier string, seed uint64, o *Out) error {
 			return err
 		}
 		obs := runWin(w, ops, false)
+		if obs == skipObs {
+			o.Count("not compared: several late updates around a nested delivery")
+			return nil
+		}
 		o.Line("C01 E %d %d %d %d # %s # %s", c.size, c.ooo, c.late, harnessBase, opsString(ops), obs)
 		o.Count(tag)
 		return nil
